@@ -2,10 +2,15 @@
 # suites are run by the Go harness and judged by the Lean driver.
 PROPS = {
     "C03": {
-        "suites": [{"name": "fresh", "quick": 20000, "thorough": 300000, "thorough_seeds": 4}],
+        "suites": [{"name": "fresh", "quick": 20000, "thorough": 300000, "thorough_seeds": 4},
+                   {"name": "sched", "stateful": True, "quick": 400, "thorough": 8000, "thorough_seeds": 2}],
+        "trip_re": "stored_unshareable|pass_not_forwarded_once|label_lies|unqualified_shared|stored_not_served|wrong_body_for_key",
         "rule": "fresh: upstream header sets from a Cache-Control directive grammar (names in random case, "
                 "values incl. 0/overflow/junk, 1-3 header lines, Set-Cookie lists incl. empty values, Age valid/"
-                "negative/junk/huge, any status, all methods) sent through the real middleware chain; "
+                "negative/junk/huge, any status, all methods) sent through the real middleware chain, each followed by "
+                "the same request again (label truthfulness: a hit costs 0 upstream calls, anything else exactly 1; an "
+                "unqualified response is not shared; a stored one is served); the clauses 'label truthful / forwarded exactly "
+                "once' are decided by this correspondence and the sched suite (X-Status vs. model pc), not by a Lean theorem; "
                 "non-trivial = a Cache-Control field is present or the model stores; distinct = distinct "
                 "(method, status, header set).",
         "assumptions": ["header strings are byte strings; the two non-ASCII runes that Go's (?i) folds to s/k are not generated",
